@@ -1300,11 +1300,13 @@ func (sp StorageProof) MarshalJSON() ([]byte, error) {
 // UnmarshalJSON implements json.Unmarshaler.
 func (sp *StorageProof) UnmarshalJSON(b []byte) error {
 	var leaf string
+	var proof []Hash256 // a null proof must replace the receiver's, not keep it
 	err := json.Unmarshal(b, &struct {
 		ParentID *FileContractID
 		Leaf     *string
 		Proof    *[]Hash256
-	}{&sp.ParentID, &leaf, &sp.Proof})
+	}{&sp.ParentID, &leaf, &proof})
+	sp.Proof = proof
 	if err != nil {
 		return err
 	} else if len(leaf) != len(sp.Leaf)*2 {
@@ -1327,11 +1329,13 @@ func (sp V2StorageProof) MarshalJSON() ([]byte, error) {
 // UnmarshalJSON implements json.Unmarshaler.
 func (sp *V2StorageProof) UnmarshalJSON(b []byte) error {
 	var leaf string
+	var proof []Hash256 // a null proof must replace the receiver's, not keep it
 	err := json.Unmarshal(b, &struct {
 		ProofIndex *ChainIndexElement
 		Leaf       *string
 		Proof      *[]Hash256
-	}{&sp.ProofIndex, &leaf, &sp.Proof})
+	}{&sp.ProofIndex, &leaf, &proof})
+	sp.Proof = proof
 	if err != nil {
 		return err
 	} else if len(leaf) != len(sp.Leaf)*2 {
